@@ -833,11 +833,11 @@ macro_rules! impl_agg {
             /// Returns the first non-null value.
             pub fn first(&self) -> DataValue {
                 match self {
-                    $(Self::$Abc(a) => a.iter().next().flatten().into(),)*
+                    $(Self::$Abc(a) => a.iter().flatten().next().into(),)*
                 }
             }
 
-            /// Returns the last non-null value.
+            /// Returns the value of the last row (NULL if it is NULL or the array is empty).
             pub fn last(&self) -> DataValue {
                 match self {
                     $(Self::$Abc(a) => a.iter().rev().next().flatten().into(),)*
